@@ -83,6 +83,8 @@ structure Cam where
   emptyEvery : Nat := 0       -- every n-th call returns 0 bytes
   drvStarts : Nat := 0        -- driver `start` / `stop` calls (ghost)
   drvStops : Nat := 0
+  failed : Bool := false      -- a `get_frame` of the current run has failed (ghost)
+  callsAfterFailure : Nat := 0   -- ghost: `get_frame` calls that reached the driver after a failed one
 deriving Repr, Inhabited
 
 /-- HAL storage + mock storage device -/
@@ -154,9 +156,9 @@ structure Stream where
   snkRunning : Bool := false
   cam : Cam := {}
   sto : Sto := {}
-  src : Src := {}
-  flt : Flt := {}
-  snk : Snk := {}
+  src : Src := { pc := .done }   -- no thread yet: a thread object that was never started is joinable at once
+  flt : Flt := { pc := .done }
+  snk : Snk := { pc := .done }
   tidSnk : Nat := 0
   tidFlt : Nat := 0
   tidSrc : Nat := 0
@@ -244,13 +246,18 @@ def srcActs (s : Nat) : List (Act Stream) := [
   { name := "src.map.frame", guard := fun st => st.src.pc = .afterMap && st.cam.state = .running, upd := fun st => setSrcPc st .getFrame },
   { name := "src.map.notrunning", guard := fun st => st.src.pc = .afterMap && st.cam.state ≠ .running, upd := fun st => setSrcPc st .finalize },
   { name := "src.frame.fault", guard := fun st => st.src.pc = .getFrame && camFault st,
-    upd := fun st => { st with cam := { st.cam with ncalls := st.cam.ncalls + 1 }, src := { st.src with pc := .failStop } },
+    upd := fun st => { st with cam := { st.cam with ncalls := st.cam.ncalls + 1, failed := true,
+                                                      callsAfterFailure := st.cam.callsAfterFailure + (if st.cam.failed then 1 else 0) },
+                               src := { st.src with pc := .failStop } },
     out := fun st => [s!"DRV {camDev s} get_frame call={st.cam.ncalls} -> err"] },
   { name := "src.frame.empty", guard := fun st => st.src.pc = .getFrame && !camFault st && camEmpty st,
-    upd := fun st => { st with cam := { st.cam with ncalls := st.cam.ncalls + 1 }, src := { st.src with pc := .abortLock } },
+    upd := fun st => { st with cam := { st.cam with ncalls := st.cam.ncalls + 1,
+                                                      callsAfterFailure := st.cam.callsAfterFailure + (if st.cam.failed then 1 else 0) },
+                               src := { st.src with pc := .abortLock } },
     out := fun st => [s!"DRV {camDev s} get_frame call={st.cam.ncalls} -> ok empty"] },
   { name := "src.frame.ok", guard := fun st => st.src.pc = .getFrame && !camFault st && !camEmpty st,
-    upd := fun st => { st with cam := { st.cam with ncalls := st.cam.ncalls + 1, frame := st.cam.frame + 1 },
+    upd := fun st => { st with cam := { st.cam with ncalls := st.cam.ncalls + 1, frame := st.cam.frame + 1,
+                                                      callsAfterFailure := st.cam.callsAfterFailure + (if st.cam.failed then 1 else 0) },
                                src := { pc := .commitLock, cur := some { run := st.cam.run, id := st.src.iframe, hw := st.cam.frame },
                                         iframe := st.src.iframe + 1 } },
     out := fun st => [s!"DRV {camDev s} get_frame call={st.cam.ncalls} -> ok frame={st.cam.frame} run={st.cam.run}"] },
